@@ -51,6 +51,8 @@ func KgsimAcquireResult(errText string, accept bool, limit int32, requestTime in
 import (
 	"sort"
 
+	"k8s.io/apimachinery/pkg/labels"
+
 	"github.com/kubewharf/kubegateway/pkg/ratelimiter/limiter/elector"
 )
 
@@ -59,6 +61,29 @@ func KgsimLeaderCheck(r RateLimiter) { r.(*rateLimiter).leaderCheck() }
 
 // KgsimElector returns the limiter's leader elector.
 func KgsimElector(r RateLimiter) elector.LeaderElector { return r.(*rateLimiter).leaderElector }
+
+// KgsimReclaimInstance does for one instance what the goroutine started by
+// cleanupTimeoutClient does once the instance's heartbeats have timed out (same
+// statements, callable as a sim thread).
+func KgsimReclaimInstance(r RateLimiter, instance string) {
+	rl := r.(*rateLimiter)
+	rl.clientCache.Delete(instance)
+	reason := "instance " + instance + " heartbeat time-out (kgsim)"
+	for _, limitStore := range rl.limitStoreMap {
+		conditions := limitStore.List(labels.SelectorFromValidatedSet(labels.Set{RateLimitConditionInstanceLabel: instance}))
+		for _, condition := range conditions {
+			rl.deleteCondition(limitStore, condition, reason)
+		}
+		rl.deleteGlobalFlowControl(limitStore, instance, reason)
+	}
+}
+
+// KgsimHasStore reports whether the limiter holds a store for the shard, without
+// taking the lock (for a sim thread: another sim thread may be parked holding it).
+func KgsimHasStore(r RateLimiter, shard int) bool {
+	_, ok := r.(*rateLimiter).limitStoreMap[shard]
+	return ok
+}
 
 // KgsimStoreShards lists the shards the limiter holds an in-memory store for.
 func KgsimStoreShards(r RateLimiter) []int {
@@ -371,7 +396,7 @@ func init() {
 		Title: "Global allocation: quotas never exceed the global limit and are never < 1",
 		Batches: []Batch{
 			{World: "rl", Profile: "c07-sequences", Quick: 200, Thor: 10000, PerProc: 1, FaultFree: true},
-			{World: "rl", Profile: "c07o-overlap", Quick: 150, Thor: 8000, PerProc: 1, FaultFree: true},
+			{World: "rl", Profile: "c07o-overlap", Quick: 1500, Thor: 60000, PerProc: 1, FaultFree: true},
 			{World: "rl", Profile: "c07h-handover", Quick: 200, Thor: 8000, PerProc: 1},
 		},
 		Rule:     "each run = 1-2 replicas with real lease election, 1-3 shards, 1-2 upstreams with a max-in-flight and optionally a token-bucket schema (global limits 1 ... 100000), 2-6+ honest instances (each echoes exactly the quota it was last answered, reports used >= 0 and RequestLevel = floor(100*used/current)), 20-80 steps of reports, limit changes through the real upstream controller (raise, lower below the allocated sum), clock advances, instances leaving and joining; after every answered report the quotas the leader has on record are read back through its exposed API; distinct = distinct trace hash; non-trivial = at least 5 answered reports from 2+ instances. Profile c07o-overlap: one leading replica (store local or API-backed), 2-4 instances, 3-12 rounds in each of which 1-3 honest reports run as sim threads through the yield-instrumented UpdateRateLimitConditionStatus under a drawn statement-level schedule; the over-commit clause is evaluated with the recorded sum at the start of the round. Profile c07h-handover: the c07-sequences workload and oracle with two replicas and the API-backed store (write-through, or periodic 1 s), plus crashes, lease-API cuts (graceful loss of leadership) and restarts; reports are answered by whoever leads; a report is judged against the records of the single leader that answered it, read before and after; non-trivial also needs a report answered after a leader change",
